@@ -15,6 +15,7 @@
 // a polynomial of degree <= 3, so value / slope / curvature at an interval end follow exactly from
 // four samples at 1/8..4/8 of the interval (weights from a 4x4 Vandermonde system).
 #include <cfloat>
+#include <functional>
 #include <stdexcept>
 
 #include "C12_sets.h"
@@ -378,12 +379,13 @@ static Res run_case(const std::string &cas) {
 }
 
 // ------------------------------------------------------------------ enumeration
+// Cases are streamed to the sink: index i belongs to this shard iff a.mine(i); same order in every shard.
 struct CaseList {
   const bsx::Args &a;
   long long n = 0;
-  std::vector<std::string> mine;
+  std::function<void(const std::string &)> sink;
   explicit CaseList(const bsx::Args &aa) : a(aa) {}
-  void push_back(const std::string &s) { if (a.mine(n)) mine.push_back(s); n++; }
+  void push_back(const std::string &s) { if (a.mine(n)) sink(s); n++; }
 };
 static void all_cases(bool thorough, CaseList &C) {
   const std::vector<std::pair<double, double>> LINES = {{1, 0.5}, {-2, -1.25}, {0.3, 3}};
@@ -470,6 +472,117 @@ static void all_cases(bool thorough, CaseList &C) {
         for (auto &ab : LINES) { Vec l; for (double xv : x) l.push_back(ab.first + ab.second * xv); Y.push_back(l); }
         for (auto &y : Y) C.push_back("m;n=" + std::to_string(ns) + ";x=" + c12::vecstr(x) + ";y=" + c12::vecstr(y));
       }
+  if (!thorough) return;
+
+  // ------------------------------------------------------------ THOROUGH ONLY (appended; the cases above are unchanged)
+  const Vec A0 = {0.0, 1.0, -1.0, 2.0}, A3 = {0.0, -1.0, 2.0}, A2 = {-1.0, 2.0};
+  // every type x boundary on one grid for a list of ordinate vectors (periodic list separately)
+  auto emit = [&](const Vec &g, const std::vector<Vec> &Ynat, const std::vector<Vec> &Yper, bool lines) {
+    int n = (int)g.size();
+    std::string xs = c12::vecstr(g);
+    for (std::string type : {"linear", "cubic", "akima"}) {
+      if (n < c12::minknots(type)) continue;
+      for (int per = 0; per < 2; per++) {
+        std::string head = std::string(";t=") + type + ";bc=" + (per ? "per" : "nat") + ";x=" + xs + ";y=";
+        std::vector<Vec> Y = per ? Yper : Ynat;
+        if (!per && lines) for (auto &ab : LINES) { Vec l; for (double xv : g) l.push_back(ab.first + ab.second * xv); Y.push_back(l); }
+        for (auto &y : Y) {
+          C.push_back("i" + head + c12::vecstr(y));
+          if (type != "akima") C.push_back("l" + head + c12::vecstr(y));
+        }
+      }
+    }
+  };
+  auto emit_all = [&](const std::vector<Vec> &G, int n, const Vec &alphabet) {
+    std::vector<Vec> Yn = c12::ordinates(n, false, alphabet), Yp = c12::ordinates(n, true, alphabet);
+    for (auto &g : G) emit(g, Yn, Yp, true);
+  };
+  // E1-E3: 6, 7, 8 knots on spacings {0.5,2}: full / ternary / binary ordinate alphabets
+  for (double x0 : {0.0, -1.5}) emit_all(c12::grids(6, x0, {0.5, 2.0}), 6, A0);
+  emit_all(c12::grids(7, 0.0, {0.5, 2.0}), 7, A3);
+  emit_all(c12::grids(8, 0.0, {0.5, 2.0}), 8, A2);
+  // E4/E5: other spacing alphabets: strongly non-uniform {0.25,0.75,1.5,3} and decimal (not binary-exact) {0.1,0.3,0.7}
+  for (int n = 2; n <= 4; n++)
+    for (double x0 : {0.0, -1.5}) {
+      emit_all(c12::grids(n, x0, {0.75, 0.25, 1.5, 3.0}), n, A0);
+      emit_all(c12::grids(n, x0, {0.1, 0.3, 0.7}), n, A0);
+    }
+  emit_all(c12::grids(5, 0.0, {0.75, 0.25, 1.5, 3.0}), 5, A3);
+  emit_all(c12::grids(5, 0.0, {0.1, 0.3, 0.7}), 5, A3);
+  // E6: larger and badly scaled ordinate alphabets on the standard grids
+  for (int n = 2; n <= 4; n++)
+    for (double x0 : {0.0, -1.5}) {
+      emit_all(c12::grids(n, x0), n, {0.0, 1.0, -1.0, 3.0, 0.5, -2.0});
+      emit_all(c12::grids(n, x0), n, {0.0, 1.0, -1000.0, 0.001});
+    }
+  // E7: the gap between 6 and 40 knots: uniform and two patterned spacings; all unit vectors + 2 patterns (+ lines)
+  for (int n : {7, 8, 10, 12, 16, 24, 32})
+    for (int style = 0; style < 3; style++) {
+      static const double S[3] = {1.0, 0.5, 2.0}, S2[4] = {0.75, 0.25, 1.5, 3.0};
+      Vec g{-1.5};
+      for (int k = 0; k + 1 < n; k++) g.push_back(g.back() + (style == 0 ? 0.5 : (style == 1 ? S[(k * 7 + k / 5) % 3] : S2[(k * 5 + k / 3) % 4])));
+      std::vector<Vec> Yn, Yp;
+      for (int k = 0; k < n; k++) { Vec e(n, 0.0); e[k] = 1; Yn.push_back(e); if (k < n - 1) { if (k == 0) e[n - 1] = 1; Yp.push_back(e); } }
+      Vec z(n), w(n);
+      for (int k = 0; k < n; k++) { z[k] = (k % 2) ? 2.0 : -1.0; w[k] = A0[(3 * k + k / 4) % 4]; }
+      Yn.push_back(z); Yn.push_back(w);
+      z[n - 1] = z[0]; w[n - 1] = w[0]; Yp.push_back(z); Yp.push_back(w);
+      emit(g, Yn, Yp, true);
+    }
+  // E8: more fit problems: fit grids with 5, 6, 11 knots, decimal steps, a range that is not a multiple of the step,
+  // uniform and non-uniform data abscissae; full ordinate alphabet up to 6 knots
+  struct FG2 { std::string fg; double lo, hi, step; int nonuni; };
+  for (FG2 fg : {FG2{"0,0.25,1", 0, 1, 0.0625, 0}, FG2{"-2,1,3", -2, 3, 0.25, 0}, FG2{"0,0.4,2.2", 0, 2.2, 0.1, 0}, FG2{"0,0.5,2", 0, 2, 0, 1},
+                 FG2{"0,2,8", 0, 8, 0.5, 0}, FG2{"0,0.1,1", 0, 1, 0.025, 0}, FG2{"-1.5,0.75,1.5", -1.5, 1.5, 0, 1}}) {
+    Vec x;
+    if (!fg.nonuni) {
+      long m = std::lround((fg.hi - fg.lo) / fg.step);
+      for (long i = 0; i <= m; i++) x.push_back(i == m ? fg.hi : fg.lo + double(i) * fg.step);
+    } else {
+      static const double D[3] = {0.0625, 0.125, 0.03125};
+      double r = fg.lo;
+      for (int k = 0; r < fg.hi; k++) { x.push_back(r); r += D[k % 3]; }
+      x.push_back(fg.hi);
+    }
+    auto parts = bsx::split(fg.fg, ',');
+    double gmin = strtod(parts[0].c_str(), nullptr), gh = strtod(parts[1].c_str(), nullptr), gmax = strtod(parts[2].c_str(), nullptr);
+    int nk = (int)std::floor((gmax - gmin) / gh + 1e-6) + 1;
+    for (std::string type : {"cubic", "linear"}) {
+      std::string head = std::string("f;t=") + type + ";fg=" + fg.fg + ";x=" + c12::vecstr(x);
+      std::vector<Vec> ORD;
+      if (nk <= 6) ORD = c12::ordinates(nk, false);
+      else for (int k = 0; k < nk; k++) { Vec e(nk, 0.0); e[k] = 1; ORD.push_back(e); Vec e2(nk, 1.0); e2[k] = -1; ORD.push_back(e2); }
+      { Vec l; for (int k = 0; k < nk; k++) l.push_back(1 + 0.5 * (k == nk - 1 ? gmax : gmin + k * gh)); ORD.push_back(l); }
+      for (auto &o : ORD) C.push_back(head + ";kind=space;y=" + c12::vecstr(o));
+      for (int pat = 0; pat < 48; pat++) {
+        Vec y;
+        for (size_t i = 0; i < x.size(); i++)
+          y.push_back(pat == 0 ? x[i] * x[i] : (pat == 1 ? std::fabs(x[i] - 0.4) : A0[(i * (size_t)(pat / 4 + 1) + (size_t)pat) % 4]));
+        C.push_back(head + ";kind=ls;y=" + c12::vecstr(y));
+      }
+    }
+  }
+  // the first seven fit grids again with 36 more data patterns
+  for (auto &fg : FGS) {
+    Vec x; for (double r = fg.lo; r <= fg.hi + 1e-12; r += fg.step) x.push_back(r);
+    for (std::string type : {"cubic", "linear"})
+      for (int pat = 24; pat < 60; pat++) {
+        Vec y;
+        for (size_t i = 0; i < x.size(); i++) y.push_back(A0[(i * (size_t)(pat / 4 + 1) + (size_t)pat) % 4]);
+        C.push_back(std::string("f;t=") + type + ";fg=" + fg.fg + ";x=" + c12::vecstr(x) + ";kind=ls;y=" + c12::vecstr(y));
+      }
+  }
+  // E9: Table::Smooth: more passes, 6 and 7 points over the full alphabet, step 0.25
+  for (long ns : {0L, 1L, 2L, 3L, 5L, 10L})
+    for (int n = 2; n <= 7; n++)
+      for (double h : {1.0, 0.5, 0.25}) {
+        bool had = (ns == 0 || ns == 1 || ns == 2 || ns == 5) && n <= 5 && h != 0.25;
+        if (had) continue;
+        Vec x; for (int k = 0; k < n; k++) x.push_back(-1.5 + h * k);
+        std::vector<Vec> Y = c12::ordinates(n, false);
+        for (auto &ab : LINES) { Vec l; for (double xv : x) l.push_back(ab.first + ab.second * xv); Y.push_back(l); }
+        for (auto &y : Y) C.push_back("m;n=" + std::to_string(ns) + ";x=" + c12::vecstr(x) + ";y=" + c12::vecstr(y));
+      }
 }
 
 // Res <-> bsx::Outcome (the case runs in a forked child, see bsx::contained)
@@ -511,30 +624,44 @@ int main(int argc, char **argv) {
       "GenerateGrid knots, reproduction of every spline-space function over the ordinate alphabet, membership + normal equations for 12 (thorough 24) "
       "generic data patterns. m: Table::Smooth(n in {0,1,2,5}) on uniform tables of 2..6 points over the ordinate alphabet + lines: end points, "
       "straight lines. distinct_nontrivial = distinct result signatures (rounded mid values/slopes, fit knot values, smoothed vectors)";
+  if (thorough)
+    R.rule += " || THOROUGH additionally: 6 knots on spacings {0.5,2} x all ordinates, 7 knots x ordinates over {-1,0,2}, 8 knots x ordinates over {-1,2}; spacing "
+              "alphabets {0.25,0.75,1.5,3} and decimal {0.1,0.3,0.7} (2..4 knots all ordinates, 5 knots ternary); ordinate alphabets {-2,-1,0,0.5,1,3} and "
+              "{-1000,0,0.001,1} (2..4 knots); grids of 7,8,10,12,16,24,32 knots (uniform + 2 spacing patterns) x all unit vectors + 2 patterns + lines; 7 more "
+              "fit problems (5/6/11-knot and decimal fit grids, range not a multiple of the step, non-uniform data abscissae, all ordinates up to 6 knots, 48 data "
+              "patterns) and 36 more data patterns on the first 7; Smooth with n in {0,1,2,3,5,10}, 2..7 points, steps {1,0.5,0.25}";
   CaseList CL(a);
-  all_cases(thorough, CL);
-  const std::vector<std::string> &C = CL.mine;
-  R.counters["cases_in_all_shards"] = a.shard == 0 ? CL.n : 0;
   std::map<char, int> sampled;
-  bsx::contained(
-      0, (long long)C.size(), [&](long long i) { return pack(run_case(C[i])); },
-      [&](long long i, const bsx::Outcome &o) {
-        R.eval();
-        R.counters[std::string("cases_") + C[i][0]]++;
-        if (o.key == "fatal") {
-          auto m = bsx::kvs(C[i]);
-          R.fail(family(C[i], m) + "-fatal", o.what + "  [" + C[i] + "]", C[i]);
-          return;
-        }
-        auto parts = bsx::split(o.extra, '\x1d');
-        if (parts.size() < 4) return;
-        R.counters["comparisons"] += atoll(parts[0].c_str());
-        if (!parts[2].empty()) for (auto &c : bsx::split(parts[2], '\x1c')) R.cls(c);
-        auto f = bsx::split(parts[3], '\x1c');
-        for (size_t k = 0; k + 1 < f.size(); k += 2) R.fail(f[k], f[k + 1] + "  [" + C[i] + "]", C[i]);
-        if (o.ok && sampled[C[i][0]] < 3 && i % 41 == 7) { sampled[C[i][0]]++; R.sample(C[i] + " -> " + parts[1]); }
-      },
-      60);
+  std::vector<std::string> chunk;
+  long long done = 0;
+  auto flush = [&]() {
+    const std::vector<std::string> &C = chunk;
+    bsx::contained(
+        0, (long long)C.size(), [&](long long i) { return pack(run_case(C[i])); },
+        [&](long long i, const bsx::Outcome &o) {
+          R.eval();
+          R.counters[std::string("cases_") + C[i][0]]++;
+          if (o.key == "fatal") {
+            auto m = bsx::kvs(C[i]);
+            R.fail(family(C[i], m) + "-fatal", o.what + "  [" + C[i] + "]", C[i]);
+            return;
+          }
+          auto parts = bsx::split(o.extra, '\x1d');
+          if (parts.size() < 4) return;
+          R.counters["comparisons"] += atoll(parts[0].c_str());
+          if (!parts[2].empty()) for (auto &c : bsx::split(parts[2], '\x1c')) R.cls(c);
+          auto f = bsx::split(parts[3], '\x1c');
+          for (size_t k = 0; k + 1 < f.size(); k += 2) R.fail(f[k], f[k + 1] + "  [" + C[i] + "]", C[i]);
+          if (o.ok && sampled[C[i][0]] < 3 && (done + i) % 41 == 7) { sampled[C[i][0]]++; R.sample(C[i] + " -> " + parts[1]); }
+        },
+        60);
+    done += (long long)chunk.size();
+    chunk.clear();
+  };
+  CL.sink = [&](const std::string &cas) { chunk.push_back(cas); if (chunk.size() >= 20000) flush(); };
+  all_cases(thorough, CL);
+  flush();
+  R.counters["cases_in_all_shards"] = a.shard == 0 ? CL.n : 0;
   R.assumptions = {"inside one knot interval the reported spline is a polynomial of degree <= 3 (that is what makes the 4-sample one-sided limits exact)",
                    "periodic clauses are asserted for periodic data (y0 = yN); for the linear spline only the end values (a piecewise-linear interpolant has no free slope)",
                    "straight-line clause of Table::Smooth is asserted on uniform grids (the filter acts on the ordinates only)",
